@@ -142,7 +142,7 @@ def idle_check(W):
 # ------------------------------------------------------------------------------------------------ C17
 def c17_case(rng):
     seedkey = rng.random() < 0.5
-    W = make_world(rng, seedkey, seeds=(lambda r: r.choice([1, 2, 0xBEEF, 0xFFFE, 0, SEED_KEY_FFFF, SEED_KEY_0000, r.randrange(1, 0xFFFF)])))
+    W = make_world(rng, seedkey, seeds=(lambda r: r.choice([1, 2, 0xBEEF, 0xFFFE, 0, 0xFFFF, SEED_KEY_FFFF, SEED_KEY_0000, r.randrange(1, 0xFFFF)])))
     bad, descs = [], []
     rapid = rng.random() < 0.5          # the application issues the next call as soon as the previous one returned
     for _ in range(rng.choice([1, 1, 2, 3, 4])):
@@ -182,7 +182,7 @@ def c18_case(rng):
     def client_key(s):
         k = KEYFN(s)
         return (k + delta) & 0xFFFF if mode['wrong'] else k
-    seeds = lambda r: r.choice([0, 1, 0xFFFE, 0xBEEF, SEED_KEY_FFFF, SEED_KEY_0000, SEED_KEY_FFFF, r.randrange(0, 0xFFFF)])
+    seeds = lambda r: r.choice([0, 1, 0xFFFE, 0xFFFF, 0xBEEF, SEED_KEY_FFFF, SEED_KEY_0000, SEED_KEY_FFFF, r.randrange(0, 0xFFFF)])
     W = make_world(rng, seedkey, seeds=seeds, client_key=client_key if seedkey else None)
     b = W.nodes[1]
     bad, descs = [], []
